@@ -98,6 +98,10 @@ def _variant(key, variant):
         return key[:-1]
     if variant == 'extended':
         return key + b'\x01'
+    if variant == 'nulpad':
+        # a different key that HMAC (RFC 2104) cannot tell from ``key`` when
+        # both are shorter than the digest's block size (finding F30)
+        return key + b'\x00'
     raise ValueError(variant)
 
 
@@ -811,6 +815,8 @@ def items(tier):
             for holder in ('listener', 'client'):
                 pairs.append((size, variant, holder))
     for size, variant, holder in pairs:
+        if variant == 'nulpad':
+            continue
         # every interleaving of the two sides' kernel operations (no bound:
         # the space is small), kernel performs every read/write in full
         out.append(('dfs', 'a-honest-x-honest',
@@ -820,6 +826,11 @@ def items(tier):
         out.append(('dfs', 'a-honest-x-honest-short-io',
                     dict(kind='honest', size=size, variant=variant,
                          holder=holder, split=True), 3 if thorough else 2))
+    for size in SIZES:
+        for holder in ('listener', 'client'):
+            out.append(('dfs', 'a-honest-x-honest-nul-extended-key',
+                        dict(kind='honest', size=size, variant='nulpad',
+                             holder=holder, split=False), UNBOUNDED))
     for role in ('listener', 'client'):
         for size in SIZES:
             scripts = list(itertools.product(ALPHABET, repeat=3))
@@ -861,8 +872,16 @@ def main(tier, seed, only=None):
         d['violations'] = []
         st.merge(d)
         for cfg, ch, msg in viol:
+            sig = None
+            if (isinstance(cfg, dict) and cfg.get('variant') == 'nulpad' and
+                    cfg.get('size', 64) < 64 and
+                    msg.startswith('different keys') and
+                    "accept() -> ('conn'," in msg and
+                    "Client() -> ('conn'," in msg):
+                sig = 'F30:hmac-zero-padded-key'
             rep.violation('%s\nconfig=%r' % (msg, cfg),
-                          dict(harness='c18', config=cfg, choices=ch))
+                          dict(harness='c18', config=cfg, choices=ch),
+                          signature=sig)
     for name in sorted(parts):
         st = parts[name]
         extra = {}
@@ -902,10 +921,12 @@ def main(tier, seed, only=None):
         'out by stubs of connection.SocketListener / SocketClient; '
         'Listener.__init__, Listener.accept, Client, deliver_challenge, '
         'answer_challenge and Connection are the real code',
-        'keys are distinguished as HMAC keys: HMAC (RFC 2104) zero-pads keys '
-        'shorter than the block size and hashes longer ones, so K and '
-        'K+b"\\0" are the same HMAC key; the key table avoids such pairs '
-        '(extension byte 0x01, no zero bytes in keys)',
+        'HMAC (RFC 2104) zero-pads keys shorter than the block size, so K and '
+        'K+b"\\0" are the same HMAC key although they are different keys in '
+        'the sense of the statement: those pairs are run in their own part '
+        '(a-honest-x-honest-nul-extended-key) and reported as known finding '
+        'F30; the other key tables use extension byte 0x01 and keys without '
+        'zero bytes',
         'the control answers of the adversary are computed with HMAC-MD5, '
         'the digest the pinned tree uses',
         'os.urandom is the counter source of vmc.vos; freshness = the '
